@@ -6,7 +6,7 @@
 //     error it passes on (errors.Is against fp.ErrOptionEmpty to recognise "its own" failure) is
 //     visible only when the USER's failure is, or wraps, such a sentinel. Identity stays pointer
 //     identity. The flavour is a function of the visit number alone (no PRNG draw).
-//  2. Pull-based Iterator operands. Wherever an Iterator operand is built, one visit in four builds
+//  2. Pull-based Iterator operands. Wherever an Iterator operand is built, one visit in 32 (value monads: one in six) builds
 //     it from iter.Seq (iterator.Pull, fp.MakePullIterator) or from a Go map (iterator.FromMapValue,
 //     FromMap, fp.IteratorOfGoMap; ordered operands: at most one entry), forces two garbage
 //     collections (finalizers run) before the operand is handed to the combinator, and one more pair
@@ -17,6 +17,7 @@ import (
 	"errors"
 	"fmt"
 	"iter"
+	"os"
 	"runtime"
 	"time"
 
@@ -73,6 +74,9 @@ func FailName(k int) int {
 
 type gcProbe struct{ p *int }
 
+// noGC (VERIF_C01_NOGC=1): timing aid only, never set by ./check
+var noGC = os.Getenv("VERIF_C01_NOGC") == "1"
+
 //go:noinline
 func armProbe(done chan struct{}) {
 	s := &gcProbe{p: new(int)}
@@ -84,7 +88,16 @@ func armProbe(done chan struct{}) {
 // unreachable at the first cycle have run (the finalizer goroutine works its queue batch by
 // batch; the second probe is queued after the batch that held the first). The wait is not part of
 // any verdict.
-func ForceGC() {
+func ForceGC() bool {
+	if c := Cur; c != nil {
+		if c.NGC >= MaxGCPerCase {
+			return false
+		}
+		c.NGC++
+	}
+	if noGC {
+		return false
+	}
 	for k := 0; k < 2; k++ {
 		done := make(chan struct{})
 		armProbe(done)
@@ -92,12 +105,20 @@ func ForceGC() {
 		select {
 		case <-done:
 		case <-time.After(200 * time.Millisecond):
+			if c := Cur; c != nil {
+				c.W.Add("gc.probe-finalizer-not-seen-within-200ms", 1)
+			}
 		}
 	}
 	if c := Cur; c != nil {
 		c.W.Add("gc.forced-double-collections."+c.P.Pkg, 1)
 	}
+	return true
 }
+
+// MaxGCPerCase: a forced double collection costs ~10 ms CPU on a loaded machine (the worker's heap
+// holds the fingerprints of all earlier cases); a case forces at most this many.
+const MaxGCPerCase = 2
 
 // ---- pull-based operands -----------------------------------------------------------------------
 
@@ -150,7 +171,9 @@ func PullIter[T any](s []T, v int) fp.Iterator[T] {
 			it, kind = fp.MakePullIterator(seqOfSlice(s, len(s) > 3)), "fp.MakePullIterator"
 		}
 	}
-	ForceGC()
+	if !ForceGC() {
+		return it
+	}
 	if c := Cur; c != nil {
 		c.GCObs = true
 		c.W.Add("gc.pull-operands."+c.P.Pkg, 1)
@@ -165,24 +188,34 @@ func PullIter[T any](s []T, v int) fp.Iterator[T] {
 
 // PullVisit: does this visit of the check use pull-based Iterator operands? n distinguishes the
 // operands of one case (descriptor variant / running number).
-func PullVisit(n int) (int, bool) {
+func PullVisit(n int) (int, bool) { return pullVisit(n, 32) }
+
+func pullVisit(n, every int) (int, bool) {
 	c := Cur
-	if c == nil {
+	if c == nil || c.NPull >= MaxPullPerCase {
 		return 0, false
 	}
 	x := c.Rot + n
 	if x < 0 {
 		x = -x
 	}
-	return x / 4, x%4 == 3
+	if x%every != every-1 {
+		return 0, false
+	}
+	c.NPull++
+	return x / every, true
 }
+
+// MaxPullPerCase bounds the forced collections of one case (a Kleisli arrow that returns Iterators
+// builds one operand per element).
+const MaxPullPerCase = 1
 
 // IterOf: the Iterator operand over s handed to Traverse / SequenceIterator / FoldM of the value
 // monads: iterator.FromSeq as before, or a pull-based constructor (see PullIter).
 func IterOf[T any](s fp.Seq[T]) fp.Iterator[T] {
 	if c := Cur; c != nil {
 		c.NIter++
-		if v, ok := PullVisit(c.NIter); ok {
+		if v, ok := pullVisit(c.NIter, 6); ok { // few such sites per package: one visit in six
 			return PullIter(s, v)
 		}
 	}
@@ -194,8 +227,9 @@ func IterOf[T any](s fp.Seq[T]) fp.Iterator[T] {
 func MidGC() {
 	if c := Cur; c != nil && c.GCObs {
 		c.GCObs = false
-		ForceGC()
-		c.W.Add("gc.mid-consumption."+c.P.Pkg, 1)
+		if ForceGC() {
+			c.W.Add("gc.mid-consumption."+c.P.Pkg, 1)
+		}
 	}
 }
 
